@@ -77,8 +77,19 @@ def liq_items(ctx, n):
         if side == -1 and lev_aim == 1 and stop_rel and stop_rel > 1:
             stop_rel = 0.5
         dist = P0 * ((1 / lev_aim - 0.004) if lev_aim > 1 else 0.5)       # entry -> liquidation price
+        if pat in ('touch_new_not_old', 'touch_old_not_new'):
+            avg = True
         p = dict(side=side, P0=P0, q1=r.choice([1, 2]), q2=1, d=round(min(8.0, dist * 0.3), 3), avg=avg,
                  tf=3 if (fast and pat == 'gap_inside_chunk') else r.choice([1, 1, 3]), stop_rel=stop_rel, aim_lev=lev_aim)
+        if typ == 'futures' and mode == 'isolated' and not p['avg'] and r.random() < 0.45 and pat not in (
+                'open_and_touch_in_same_candle',):
+            # all-in / nearly all-in position with a fee: initial margin + entry fee + liquidation fee > wallet
+            lev2 = r.choice([5, 10, 20, 25, 50, 75, 100, 125])
+            margin = p['q1'] * P0 / lev2
+            cfg = futures_config(lev=lev2, fee=r.choice([0.0005, 0.001]), mode='isolated',
+                                 balance=margin if r.random() < 0.6 else margin * 1.0005)
+            dist = P0 * (1 / lev2 - 0.004)
+            p = dict(p, aim_lev=lev2, d=round(min(8.0, dist * 0.3), 3), allin=True)
         items.append(dict(id=len(items) + 1, p=p, cfg=cfg, pattern=pat, fast=fast))
         i += 1
     return items
@@ -150,7 +161,8 @@ def run(ctx):
         it = by[i]
         if s['open_checks'] > 0:
             ctx.nontrivial.add(('run', it['p']['side'], it['cfg']['futures_leverage'], it['cfg'].get('futures_leverage_mode'),
-                                it['cfg']['type'], it['pattern'], it['fast'], it['p']['avg'], it['p']['stop_rel'], it['p']['tf']))
+                                it['cfg']['type'], it['pattern'], it['fast'], it['p']['avg'], it['p']['stop_rel'], it['p']['tf'],
+                                bool(it['p'].get('allin'))))
     ctx.evaluations += len(items) + n_reads
     k = next((j for j, t in enumerate(traces) if stats[t['id']]['liq']), 0)
     samples.append({'kind': 'two-pass run (pattern %s), liquidation checks of the encoded trace' % by[traces[k]['id']]['pattern'],
@@ -159,6 +171,8 @@ def run(ctx):
            'runs_with_a_liquidation': liqd, 'liquidation_checks_judged': checks,
            'checks_with_an_open_position': open_checks, 'knife_edge_gap_cases_not_judged': skips,
            'violating_clauses': nb, 'tlc_states': sum(r.generated for r in results),
+           'all_in_positions_with_fee': sum(1 for i in stats if by[i]['p'].get('allin')),
+           'all_in_positions_liquidated': sum(1 for i, s in stats.items() if by[i]['p'].get('allin') and s['liq']),
            'patterns': {p: sum(1 for i in stats if by[i]['pattern'] == p) for p in mt.LIQ_PATTERNS}}
     ctx.log("two-pass: %s %.0fs" % (agg, time.time() - t0))
     for name, fut in jobs.items():
